@@ -287,8 +287,63 @@ fn refused_in_the_midst(rep: &mut Rep) {
     }
 }
 
+/// The acknowledgement arrives right behind a large inbound message, in the transport read that brings that message's last
+/// bytes (short reads: the client asks for more than the rest of the message there).
+fn ack_behind_a_large_message(rep: &mut Rep) {
+    let sizes = [1_000usize, 4_000, 5_000, 9_000, 66_000, 70_300, 300_000];
+    let caps = [1000usize, 700, 333, 4096];
+    rep.note(&format!("acknowledgement behind a large message: an inbound PUBLISH of {:?} bytes for a live subscription directly followed by the acknowledgement of a waiting QoS 1 / QoS 2 publish, subscribe, unsubscribe or ping, everything available at once, reads capped at {:?} bytes: the operation completes with it, the message is yielded", sizes, caps));
+    let mut idx = 25_000_000u64;
+    for (si, &sz) in sizes.iter().enumerate() {
+        for (ci, &cap) in caps.iter().enumerate() {
+            for kind in [Kind::Pub1, Kind::Pub2, Kind::Sub, Kind::Unsub, Kind::Ping] {
+                let id = format!("ack-behind:{sz}:{cap}:{}", kind.name());
+                idx += 1;
+                if !rep.take(idx, &id) {
+                    continue;
+                }
+                let mut w = World::boot(WorldCfg { seed: rep.seed, order: ((si + ci) % 4) as u8, ..Default::default() });
+                w.sim.log_enabled = sz < 10_000;
+                let a = w.start(0, Kind::Sub);
+                w.settle_check();
+                w.deliver_ack(a, 1, 0, 0);
+                w.settle_check();
+                w.take_stream(a);
+                let sid = w.sub_id_of(a).unwrap_or(1);
+                let op = w.start(1, kind);
+                w.settle_check();
+                w.sim.capture = Some(Vec::new());
+                w.in_publish_sized(((si + ci) % 2) as u8, 77, false, &[sid], sz);
+                if kind == Kind::Ping {
+                    w.pingresp();
+                } else {
+                    w.deliver_ack(op, 1, 0, (ci % 2) as u8);
+                }
+                let bytes = w.sim.capture.take().unwrap_or_default();
+                w.sim.reader.0.borrow_mut().default_cap = cap;
+                w.sim.feed(&bytes);
+                w.settle_check();
+                w.sim.reader.0.borrow_mut().default_cap = usize::MAX;
+                if kind == Kind::Pub2 && !w.blind {
+                    w.deliver_ack(op, 2, 0, 0);
+                    w.settle_check();
+                }
+                finish(&mut w);
+                rep.add("evaluations", 1);
+                rep.add("acks_behind_a_large_message", 1);
+                rep.distinct(&("ack-behind", sz, cap, kind));
+                if super::harvest(rep, &mut w, &id) == 0 {
+                    rep.sample(|| format!("{id}: {} bytes, result {:?}", bytes.len(), w.sim.ops[op].out.as_ref().map(|o| o.brief())));
+                }
+                super::add_counters(rep, &w);
+            }
+        }
+    }
+}
+
 pub fn run(rep: &mut Rep) {
     if rep.profile != "tsan" {
+        ack_behind_a_large_message(rep);
         unwritten_requests(rep);
         refused_in_the_midst(rep);
     }
